@@ -58,4 +58,12 @@ PROPS = {
                 profiles=(["debug"], ["debug"]), case_timeout=300,
                 rule="cases = batches of 200 generated URLs (decode), batches of 50 host-less URLs with user info / port, end-to-end opens over loopback TCP, fixed forms from the statement; distinct = case id (each batch draws fresh URLs from its own generator stream); all non-trivial",
                 assumptions=["trusted base: the URL assembler/percent-encoder and expectation in harness/src/props/c19.rs", "127.0.0.1 and localhost are reachable (loopback TCP)"]),
+    "C02": dict(level="exploration",
+                level_text="Held on the executions produced: 1-3 channels on as many threads publish through Channel::basic_publish, Exchange::publish and Exchange::direct with random exchanges, routing keys up to 255 bytes, all mandatory/immediate combinations, random property sets (all 14 fields, nested tables) and body lengths 0, 1, k x (frame_max-8) +-1 for k = 1..4, random and multi-MB, over negotiated frame_max values 4096, 4097, 8192, 65536, 131072, 2^32-1 (both sides 0) and random; the broker-side frame log is walked per channel: Basic.Publish fields == arguments, one class-60 header with body_size == len and properties == given, body frames each <= frame_max incl. 8 bytes of framing whose payloads concatenate to the body (none when empty), groups contiguous and in publish order.",
+                level_note="No hook. Maximal chunking is not demanded. Frames are decoded with amq-protocol (third-party); envelope sizes come from the harness parser.",
+                technique="runtime monitoring: offline checker over the broker-side frame log against the publish arguments (field equality, size bounds, contiguity, order)",
+                progress=False, abort=False, min_nontrivial=(60, 600),
+                profiles=(["debug"], ["debug", "release"]), case_timeout=300,
+                rule="cases = (negotiated frame_max) x (1-3 publishing channels/threads) x (3-14 publishes each with random API entry point, flags, properties, boundary body lengths); distinct = (frame_max, channels, body-length vector); non-trivial = always (>= 3 publishes checked)",
+                assumptions=["trusted base: harness envelope parser and group walker, amq-protocol codec"]),
 }
